@@ -350,7 +350,8 @@ def apply_fault(out, eligible, fault, rnd, d):
         m = re.search(r'(\++|-+)([A-Z][A-Z0-9]*)', line)
         if not m:
             return None
-        wrong = len(m.group(1)) + 1
+        right = len(m.group(1)) * (1 if m.group(1)[0] == '+' else -1)
+        wrong = rnd.choice([w for w in (0, 0, right + 1, right - 1, -right, 2 * right) if w != right])
         repl = '%s%s {"order": %d}' % (m.group(1), m.group(2), wrong)
         # only when the reference carries no attributes of its own
         after = line[m.end():].lstrip()
